@@ -8,7 +8,7 @@ import (
 	"golang.org/x/tools/go/ssa"
 )
 
-var listDuality = newDuality(false, "prev", "next", "front", "back", "before", "after", "pred", "succ", "first", "last", "head", "tail", "predecessor", "successor")
+var listDuality = newDuality(false, "prev", "next", "front", "back", "before", "after", "pred", "succ", "first", "last", "head", "tail", "predecessor", "successor", "forward", "backward", "fwd", "bwd", "left", "right")
 
 func init() {
 	register(&Property{
@@ -451,22 +451,47 @@ func ruleListUnlinkBothSides(c *Ctx, r *R) {
 		r.undecided("xlist.List.remove|missing", token.NoPos, "anchor not found")
 		return
 	}
-	node := fn.Params[1].Name()
+	l, node := "param:"+fn.Params[0].Name(), "param:"+fn.Params[1].Name()
+	// the places a store can write to: the address itself, or - `*l.forwardLink(node) = …` - each address the in-package helper
+	// can return (in the caller's terms)
+	alternatives := func(addr ssa.Value) []string {
+		if call, ok := addr.(*ssa.Call); ok {
+			if cal := staticCallee(&call.Call); cal != nil && cal.Blocks != nil && rootFn(cal).Pkg == rootFn(fn).Pkg {
+				var out []string
+				for _, rv := range returnedBy(cal, 0) {
+					out = append(out, addrProv(rv, provEnv{chain: []*ssa.Call{call}}).String())
+				}
+				return out
+			}
+		}
+		return []string{addrProv(addr, provEnv{}).String()}
+	}
 	pf := &PF{N: 4} // bit0 = predecessor side repaired, bit1 = successor side repaired
 	pf.Instr = func(f *ssa.Function, in ssa.Instruction, q int) (StateSet, bool) {
 		st, ok := in.(*ssa.Store)
 		if !ok {
 			return 0, false
 		}
-		ap, vp := path(st.Addr), path(st.Val)
+		alts := alternatives(st.Addr)
+		vp := valueProv(st.Val, provEnv{}).String()
+		allIn := func(set ...string) bool {
+			for _, a := range alts {
+				found := false
+				for _, s := range set {
+					if a == s {
+						found = true
+					}
+				}
+				if !found {
+					return false
+				}
+			}
+			return len(alts) > 0
+		}
 		switch {
-		case ap == "l.front" && (vp == "l.front.next" || vp == node+".next"):
+		case allIn(l+".front", node+".prev.next") && (vp == node+".next" || (vp == l+".front.next" && allIn(l+".front"))):
 			return ss(q | 1), true
-		case ap == node+".prev.next" && vp == node+".next":
-			return ss(q | 1), true
-		case ap == "l.back" && (vp == "l.back.prev" || vp == node+".prev"):
-			return ss(q | 2), true
-		case ap == node+".next.prev" && vp == node+".prev":
+		case allIn(l+".back", node+".next.prev") && (vp == node+".prev" || (vp == l+".back.prev" && allIn(l+".back"))):
 			return ss(q | 2), true
 		}
 		return 0, false
